@@ -5,6 +5,7 @@ from __future__ import annotations
 
 import importlib
 import io
+import zlib
 import math
 import os
 import re
@@ -507,6 +508,57 @@ def _delta(a: list, b: list) -> list:
     return [[i + 1, v] for i, (u, v) in enumerate(zip(a, b)) if u != v]
 
 
+def respell(raw: bytes) -> tuple[bytes, int]:
+    """The saved package with attribute values re-spelled as another producer may spell them, value for value the same by the schema:
+    hexBinary colours in lower case (a:srgbClr/@val, a:sysClr/@lastClr), xsd:boolean "1"/"0" as "true"/"false" for the attributes that
+    are boolean wherever they occur in DrawingML / PresentationML / charts."""
+    import re
+    import zipfile
+    from lxml import etree
+    # xsd:boolean attributes BY ELEMENT (an attribute name means something else elsewhere: a:srcRect/@b is a percentage)
+    RPR = {"b", "i", "kumimoji", "normalizeH", "noProof", "dirty", "err", "smtClean"}
+    LOCKS = {"noGrp", "noRot", "noChangeAspect", "noMove", "noResize", "noSelect", "noEditPoints", "noAdjustHandles", "noChangeArrowheads",
+             "noChangeShapeType", "noTextEdit", "noCrop", "noDrilldown", "noUngrp"}
+    BOOL_AT = {"rPr": RPR, "defRPr": RPR, "endParaRPr": RPR, "xfrm": {"flipH", "flipV"}, "spLocks": LOCKS, "picLocks": LOCKS, "grpSpLocks": LOCKS,
+               "graphicFrameLocks": LOCKS, "cxnSpLocks": LOCKS, "cNvSpPr": {"txBox"}, "nvPr": {"userDrawn"}, "ph": {"hasCustomPrompt"},
+               "sld": {"showMasterSp", "showMasterPhAnim"}, "gradFill": {"rotWithShape"}, "blipFill": {"rotWithShape"},
+               "tblPr": {"firstRow", "firstCol", "lastRow", "lastCol", "bandRow", "bandCol", "rtl"}, "tc": {"hMerge", "vMerge"},
+               "bodyPr": {"rtlCol", "anchorCtr", "upright", "compatLnSpc", "fromWordArt", "forceAA", "spcFirstLastPara"},
+               "pPr": {"eaLnBrk", "latinLnBrk", "hangingPunct", "rtl"}}
+    CVAL = {"autoTitleDeleted", "varyColors", "delete", "invertIfNegative", "smooth", "marker", "showLegendKey", "showVal", "showCatName",
+            "showSerName", "showPercent", "showBubbleSize", "showLeaderLines", "overlay", "plotVisOnly", "date1904", "roundedCorners", "auto",
+            "noMultiLvlLbl", "bubble3D", "showNegBubbles", "rAngAx", "showDLblsOverMax"}
+    C = "http://schemas.openxmlformats.org/drawingml/2006/chart"
+    n = 0
+    zin = zipfile.ZipFile(io.BytesIO(raw))
+    out = io.BytesIO()
+    with zipfile.ZipFile(out, "w", zipfile.ZIP_DEFLATED) as zout:
+        for item in zin.infolist():
+            data = zin.read(item.filename)
+            if item.filename.endswith(".xml") and (item.filename.startswith("ppt/slides/") or item.filename.startswith("ppt/charts/")):
+                root = etree.fromstring(data)
+                for el in root.iter():
+                    if not isinstance(el.tag, str):
+                        continue
+                    ln = etree.QName(el).localname
+                    if ln in ("srgbClr", "sysClr"):
+                        for a in ("val", "lastClr"):
+                            v = el.get(a)
+                            if v and re.fullmatch(r"[0-9A-F]{6}", v) and v != v.lower():
+                                el.set(a, v.lower())
+                                n += 1
+                    for a, v in list(el.attrib.items()):
+                        if a in BOOL_AT.get(ln, ()) and v in ("0", "1"):
+                            el.set(a, "true" if v == "1" else "false")
+                            n += 1
+                    if etree.QName(el).namespace == C and ln in CVAL and el.get("val") in ("0", "1"):
+                        el.set("val", "true" if el.get("val") == "1" else "false")
+                        n += 1
+                data = etree.tostring(root, xml_declaration=True, encoding="UTF-8", standalone=True)
+            zout.writestr(item, data)
+    return out.getvalue(), n
+
+
 def run_trace(job) -> dict:
     """job = (id, kind name, deck (fixture name or corpus file), object path, actions [{op,p,v,exp}]) -> observed trace."""
     tid, kname, deck, path, acts = job
@@ -543,7 +595,10 @@ def run_trace(job) -> dict:
                 b = io.BytesIO()
                 prs.save(b)
                 import pptx
-                prs2 = pptx.Presentation(io.BytesIO(b.getvalue()))
+                saved = b.getvalue()
+                if zlib.crc32(str(tid).encode()) % 2 == 0:      # every other history: the file is read as another producer spells it
+                    saved, m["respelled"] = respell(saved)
+                prs2 = pptx.Presentation(io.BytesIO(saved))
                 obj2 = resolve(prs2, path)
                 prs, obj = prs2, obj2
                 twin = twin_of(prs)
